@@ -159,6 +159,36 @@ thread_local! {
     static LAST_PANIC: RefCell<Option<(String, u32, String)>> = const { RefCell::new(None) };
 }
 
+/// cases finished in this process (all groups); the stall watchdog looks at it
+static PROGRESS: std::sync::atomic::AtomicU64 = std::sync::atomic::AtomicU64::new(0);
+static CURRENT_GROUP: Mutex<String> = Mutex::new(String::new());
+
+/// A check whose process finishes no case for VERIF_STALL_S seconds (default 900) is stuck in the
+/// harness or in rPGP; which of the two cannot be told from here, so the run ends as inconclusive
+/// (exit 2). Isolated groups have their own per-case watchdog and attribution.
+pub fn start_stall_watchdog() {
+    let limit = std::env::var("VERIF_STALL_S").ok().and_then(|s| s.parse::<u64>().ok()).unwrap_or(900);
+    std::thread::Builder::new()
+        .name("stall-watchdog".into())
+        .spawn(move || {
+            let mut last = PROGRESS.load(Ordering::Relaxed);
+            let mut since = Instant::now();
+            loop {
+                std::thread::sleep(std::time::Duration::from_secs(5));
+                let now = PROGRESS.load(Ordering::Relaxed);
+                if now != last {
+                    last = now;
+                    since = Instant::now();
+                } else if since.elapsed().as_secs() >= limit {
+                    let g = CURRENT_GROUP.lock().map(|g| g.clone()).unwrap_or_default();
+                    println!("HARNESS-BUG (inconclusive, not a violation): no case finished for {limit} s in group {g:?}");
+                    std::process::exit(2);
+                }
+            }
+        })
+        .ok();
+}
+
 pub fn install_panic_hook() {
     std::panic::set_hook(Box::new(|info| {
         let (file, line) = info
@@ -433,6 +463,7 @@ impl Ctx {
         let mut t = Tape::new(tape);
         LAST_PANIC.with(|p| *p.borrow_mut() = None);
         let r = catch_unwind(AssertUnwindSafe(|| f(&mut t, &mut rec)));
+        PROGRESS.fetch_add(1, Ordering::Relaxed);
         // a generator that reads past the end of its tape only gets zeros from there on: make that visible
         if tape.len() > 8 && t.pos() > tape.len() {
             rec.labels.push("engine:tape-overrun".to_string());
@@ -519,6 +550,9 @@ impl Ctx {
             let g = acc.groups.entry(name.to_string()).or_default();
             g.exhaustive = indexed;
             g.started.get_or_insert_with(Instant::now);
+            if let Ok(mut cg) = CURRENT_GROUP.lock() {
+                *cg = name.to_string();
+            }
         }
         let make_tape = |idx: u64| -> Vec<u8> {
             if indexed {
@@ -695,6 +729,9 @@ impl Ctx {
             let g = acc.groups.entry(name.to_string()).or_default();
             g.exhaustive = indexed;
             g.started.get_or_insert_with(Instant::now);
+            if let Ok(mut cg) = CURRENT_GROUP.lock() {
+                *cg = name.to_string();
+            }
         }
         let exe = std::env::current_exe().expect("current_exe");
         let workers = (rayon::current_num_threads() as u64).min(n.div_ceil(8)).max(1);
@@ -765,6 +802,7 @@ impl Ctx {
                                             rec.discard = v["discard"].as_bool().unwrap_or(false);
                                             rec.sub_evals = v["sub_evals"].as_u64().unwrap_or(0);
                                             rec.fails = v["fails"].as_array().map(|a| a.iter().map(|x| Fail { sig: x["sig"].as_str().unwrap_or("").to_string(), detail: x["detail"].as_str().unwrap_or("").to_string() }).collect()).unwrap_or_default();
+                                            PROGRESS.fetch_add(1, Ordering::Relaxed);
                                             results.lock().unwrap().push(CaseOut { idx, rec, harness_panic: v["harness_panic"].as_str().map(String::from) });
                                             inflight = None;
                                             next = idx + 1;
